@@ -17,6 +17,8 @@ import (
 
 type Script struct {
 	Files [][]*Node `json:"files"`
+	// FileTags: per file, hashtags written before its first node (they belong to the file, not to any line)
+	FileTags [][]string `json:"file_tags,omitempty"`
 }
 
 type Node struct {
@@ -384,8 +386,13 @@ func renderScript(sc *Script, lay *Layout) []string {
 	lay.longDone = [2]bool{}
 	lay.used = nil
 	var out []string
-	for _, f := range sc.Files {
+	for fi, f := range sc.Files {
 		p := newPrinter(lay)
+		if fi < len(sc.FileTags) {
+			for _, tag := range sc.FileTags[fi] {
+				p.b.WriteString("#" + tag + "\n")
+			}
+		}
 		for _, n := range f {
 			p.b.WriteString("title: " + n.Title + "\n")
 			if n.Tracking != "" {
